@@ -610,7 +610,7 @@ def correspondence(ctx):
         ctx.shared_state_changed = True
     cases = list(WITNESS_CASES) + gen_cases(ctx, "corr", ctx.budget(300, 5000), malformed_rate=0.15)
     cases += ambient_cases(ctx, "corr-ambient", ctx.budget(30, 600))
-    cases += spelling_cases() + interval_cases()
+    cases += spelling_cases() + interval_cases() + orbit_cases()
     reqs_c = ["rrule.construct " + wire(c) for c in cases]
     reqs_i = ["rrule.iter %s %d %d" % (wire(c), c["n"], FUEL[c["freq"]]) for c in cases]
     got_c = ctx.driver(reqs_c)
@@ -717,6 +717,26 @@ def _safe(pred, v):
         return False
 
 
+def orbit_cases():
+    """rules whose next occurrence lies exactly ONE FULL ORBIT of the grid later (the only listed grid point is the start's own
+    time of day): the reachability loops of MINUTELY / SECONDLY and __mod_distance need every one of their passes — the bounds
+    1440 / gcd, 86400 / gcd, 24, 60 of the code are the bounds of the model's loops (`secondlyLoop_bhm`, `minutelyLoop_bm`,
+    `mod_distance_least`); one pass fewer and the rule would end in a ValueError"""
+    def c(freq, interval, hms, **kw):
+        d = {"freq": freq, "interval": interval, "wkst": None, "dtstart": [2024, 2, 27, hms[0], hms[1], hms[2], 0], "kind": "naive", "n": 4}
+        d.update(kw)
+        return d
+    out = [
+        c(6, 60, (9, 0, 0), byhour=[9], byminute=[0]), c(6, 3600, (9, 0, 0), byhour=[9]), c(6, 1, (9, 0, 0), byhour=[9], byminute=[0], bysecond=[0]),
+        c(6, 7200, (23, 59, 59), byhour=[23]), c(6, 86400, (9, 30, 15), byhour=[9], byminute=[30], bysecond=[15]),
+        c(6, 43200, (9, 30, 15), byhour=[9]), c(6, 90, (0, 0, 0), byhour=[0], byminute=[0]), c(6, 17, (5, 5, 5), byminute=[5], bysecond=[5], byhour=[5]),
+        c(5, 60, (9, 0, 0), byhour=[9]), c(5, 1, (9, 0, 0), byhour=[9], byminute=[0]), c(5, 1440, (9, 7, 0), byhour=[9], byminute=[7]),
+        c(5, 720, (9, 7, 0), byhour=[9]), c(5, 45, (12, 0, 0), byhour=[12], byminute=[0]), c(5, 7, (3, 3, 0), byhour=[3], byminute=[3]),
+        c(4, 1, (9, 0, 0), byhour=[9]), c(4, 24, (9, 0, 0), byhour=[9]), c(4, 5, (13, 0, 0), byhour=[13]), c(4, 16, (8, 0, 0), byhour=[8]),
+    ]
+    return out
+
+
 def interval_cases():
     """INTERVAL < 1 (RFC 5545: a positive integer): every frequency x interval 0 / -1 / -2 / -30, bare and with BY parts,
     COUNT and UNTIL: the constructor must raise ValueError (fix D-C01-interval); before the fix interval=0 yielded the start for
@@ -791,6 +811,9 @@ def oracle(ctx):
     iv = interval_cases()
     ctx.count("oracle_interval_cases", len(iv))
     evaluate(ctx, iv)
+    ob = orbit_cases()
+    ctx.count("oracle_orbit_cases", len(ob))
+    evaluate(ctx, ob)
     if len(unknown_violations(ctx)) >= 3:
         ctx.note("oracle stopped after the spelling / interval streams: failing inputs found")
         return
@@ -895,7 +918,7 @@ def interleave_stream(ctx):
     rng = ctx.subrng("interleave")
     for c, hist in HIST_SEEDS:
         run_hist_case(ctx, dict(c), hist, "seed")
-    n = ctx.budget(70, 2500)
+    n = ctx.budget(70, 300)
     done = 0
     tries = 0
     while done < n and tries < 3 * n:
